@@ -1,20 +1,44 @@
 #!/bin/bash
-# Robustness test: behaviour-preserving renames of locals in a scratch copy of the current sources must not make any check
-# report a violation (exit 1) — analysis-broken (exit 2) would also be a defect of the rules here, since every anchor still exists.
-D=$(mktemp -d /tmp/pvrefactor.XXXX); mkdir -p $D/subprojects/hinnant-date
-cp -r /repo/include /repo/src $D/; cp -r /repo/subprojects/hinnant-date/include $D/subprojects/hinnant-date/
-cd $D
-sed -i 's/\bstop\b/halt/g; s/\btotalWritten\b/written/g; s/\bbytesWritten\b/nb/g; s/\bisInRightThread\b/sameThread/g; s/\bwq\b/pending/g; s/\bbufferHolder\b/tailHolder/g' src/common/transport.cc
-sed -i 's/\bsupportedMethods\b/allowed/g; s/\bpara_val\b/pv1/g; s/\bsanitized\b/clean/g; s/\bopt_val\b/ov1/g' src/server/router.cc
-sed -i 's/\bportPart\b/pp/g; s/\bcolon_pos\b/cpos/g; s/\bport_num\b/pnum/g' src/common/net.cc
-sed -i 's/\bidlePeers\b/idle/g; s/\belapsed\b/age/g' src/server/endpoint.cc
-sed -i 's/\bcontentLength\b/clen/g; s/\bremainingData\b/rem/g; s/\bheaderRevert\b/hrev/g; s/\bmethodToken\b/mtok/g; s/\bcodeText\b/ctext/g' src/common/http.cc
-sed -i 's/\bprev\b/pred/g' include/pistache/mailbox.h
-sed -i 's/\breadOffset\b/roff/g' include/pistache/stream.h
-cd /verif; rc=0
-for p in C01 C03 C04 C05 C06 C07 C08 C09 C10 C11 C12 C13 C14 C15 C16 C17 C18 C19; do
-  out=$(./check $p --repo $D --no-evidence 2>&1); code=$?
-  echo "$p exit=$code $(echo "$out" | grep -E '^(VIOLATION|ANALYSIS-BROKEN)' | head -1 | cut -c1-160) $(echo "$out" | grep -E '^  at' | head -1 | cut -c1-200)"
-  [ $code -ne 0 ] && rc=1
+# Robustness test ("never raise an alarm on code where the property holds"): behaviour-preserving variants of the current sources
+# must not make any check report a violation (exit 1); analysis-broken (exit 2) is also counted as a defect of the rules here,
+# unless the patch's header says `# anchor-moving` (it renames or removes a function a rule is anchored in).
+#   variant 00: renames of locals (sed);  variants selftest/refactors/*.patch: structural refactors (helper extraction, inverted
+#   conditions, loop forms, lock-guard flavours, ...) written by hand and by context-free sub-agents, each compiled and run through
+#   the repository's test-suite when it was recorded.
+# usage: tool/refactor_test.sh [patch ...]     (default: all)
+cd /verif
+PROPS="C01 C02 C03 C04 C05 C06 C07 C08 C09 C10 C11 C12 C13 C14 C15 C16 C17 C18 C19"
+mk() { D=$(mktemp -d /tmp/pvrefactor.XXXX); mkdir -p $D/subprojects/hinnant-date; cp -r /repo/include /repo/src $D/; cp -r /repo/subprojects/hinnant-date/include $D/subprojects/hinnant-date/; echo $D; }
+run_variant() { # $1 dir $2 label $3 tolerate-exit-2
+  local bad=0
+  for p in $PROPS; do
+    out=$(./check $p --repo $1 --no-evidence 2>&1); code=$?
+    if [ $code -eq 1 ] || { [ $code -eq 2 ] && [ "$3" != yes ]; }; then
+      bad=1; echo "FALSE-ALARM variant=$2 $p exit=$code $(echo "$out" | grep -E '^(VIOLATION|ANALYSIS-BROKEN)' | head -1 | cut -c1-200) $(echo "$out" | grep -E '^  at' | head -1 | cut -c1-220)"
+    fi
+  done
+  [ $bad -eq 0 ] && echo "silent variant=$2"
+  return $bad
+}
+rc=0
+if [ $# -eq 0 ]; then
+  D=$(mk); cd $D
+  sed -i 's/\bstop\b/halt/g; s/\btotalWritten\b/written/g; s/\bbytesWritten\b/nb/g; s/\bisInRightThread\b/sameThread/g; s/\bwq\b/pending/g; s/\bbufferHolder\b/tailHolder/g' src/common/transport.cc
+  sed -i 's/\bsupportedMethods\b/allowed/g; s/\bpara_val\b/pv1/g; s/\bsanitized\b/clean/g; s/\bopt_val\b/ov1/g' src/server/router.cc
+  sed -i 's/\bportPart\b/pp/g; s/\bcolon_pos\b/cpos/g; s/\bport_num\b/pnum/g' src/common/net.cc
+  sed -i 's/\bidlePeers\b/idle/g; s/\belapsed\b/age/g' src/server/endpoint.cc
+  sed -i 's/\bcontentLength\b/clen/g; s/\bremainingData\b/rem/g; s/\bheaderRevert\b/hrev/g; s/\bmethodToken\b/mtok/g; s/\bcodeText\b/ctext/g' src/common/http.cc
+  sed -i 's/\bprev\b/pred/g' include/pistache/mailbox.h
+  sed -i 's/\breadOffset\b/roff/g' include/pistache/stream.h
+  cd /verif; run_variant $D 00_rename_locals no || rc=1; rm -rf $D
+  set -- selftest/refactors/*.patch
+fi
+for P in "$@"; do
+  D=$(mk)
+  if ! (cd $D && patch -p1 -s --no-backup-if-mismatch < /verif/$P >/dev/null 2>&1 || patch -p1 -s --no-backup-if-mismatch < $P >/dev/null 2>&1); then
+    echo "stale variant=$(basename $P) (does not apply to the current sources; re-record it)"; rm -rf $D; continue; fi
+  tol=no; grep -q '^# anchor-moving' $P && tol=yes
+  run_variant $D $(basename $P .patch) $tol || rc=1
+  rm -rf $D
 done
-rm -rf $D; exit $rc
+exit $rc
